@@ -1,26 +1,15 @@
 
-val implb : bool -> bool -> bool
-
-val negb : bool -> bool
-
 type nat =
 | O
 | S of nat
 
-type ('a, 'b) sum =
-| Inl of 'a
-| Inr of 'b
-
 val length : 'a1 list -> nat
 
-val app : 'a1 list -> 'a1 list -> 'a1 list
+val map : ('a1 -> 'a2) -> 'a1 list -> 'a2 list
 
-type comparison =
-| Eq
-| Lt
-| Gt
+val fold_left : ('a1 -> 'a2 -> 'a1) -> 'a2 list -> 'a1 -> 'a1
 
-val compOpp : comparison -> comparison
+val existsb : ('a1 -> bool) -> 'a1 list -> bool
 
 type positive =
 | XI of positive
@@ -46,20 +35,7 @@ module Pos :
 
   val pred_double : positive -> positive
 
-  val mul : positive -> positive -> positive
-
-  val compare_cont : comparison -> positive -> positive -> comparison
-
-  val compare : positive -> positive -> comparison
-
   val eqb : positive -> positive -> bool
-
-  val of_succ_nat : nat -> positive
- end
-
-module N :
- sig
-  val add : n -> n -> n
  end
 
 module Z :
@@ -74,153 +50,89 @@ module Z :
 
   val add : z -> z -> z
 
-  val opp : z -> z
-
-  val sub : z -> z -> z
-
-  val mul : z -> z -> z
-
-  val compare : z -> z -> comparison
-
-  val leb : z -> z -> bool
-
-  val ltb : z -> z -> bool
-
   val eqb : z -> z -> bool
-
-  val of_nat : nat -> z
-
-  val pos_div_eucl : positive -> z -> z * z
-
-  val div_eucl : z -> z -> z * z
-
-  val modulo : z -> z -> z
  end
 
-val map : ('a1 -> 'a2) -> 'a1 list -> 'a2 list
-
-val flat_map : ('a1 -> 'a2 list) -> 'a1 list -> 'a2 list
-
-val existsb : ('a1 -> bool) -> 'a1 list -> bool
-
-val forallb : ('a1 -> bool) -> 'a1 list -> bool
-
-val filter : ('a1 -> bool) -> 'a1 list -> 'a1 list
+type bytes = n list
 
 type target =
 | TCredit
 | TDebit
 | TNone
 
-val target_eqb : target -> target -> bool
-
 type seg_arm = { sa_codes : z list; sa_target : target; sa_unknown : bool }
-
-type scc_kind =
-| SSplit of z * z
-| SReuseCredit
-| SReuseDebit
-| SUnknown
-
-type scc_arm = { sc_code : z; sc_kind : scc_kind }
 
 val memz : z -> z list -> bool
 
-val classify : seg_arm list -> z -> target
-
-val digit_dir : z -> target
-
-val entry_code : z list -> z -> bool
-
 type entry = { e_code : z; e_amount : z; e_id : n; e_trace : n }
 
-val goes : seg_arm list -> target -> entry -> bool
+type rflag =
+| FCredits
+| FDebits
+| FNoFlag
+| FBothFlags
 
-val sum_dir : seg_arm list -> target -> entry list -> z
+type rev_arm = { ra_codes : z list; ra_delta : z; ra_flag : rflag;
+                 ra_unknown : bool }
 
-val all_dir : target -> entry list -> bool
+type fcond =
+| CCredits
+| CDebits
+| CBoth
+| CUnknown
 
-type stables = { st_seg_std : seg_arm list; st_seg_iat : seg_arm list;
-                 st_seg_adv : seg_arm list; st_amt_std : seg_arm list;
-                 st_amt_iat : seg_arm list; st_amt_adv : seg_arm list;
-                 st_scc_std : scc_arm list; st_scc_iat : scc_arm list;
-                 st_codes : z list }
+type rev_fixup = { fx_cond : fcond; fx_hdr : z; fx_ctl : z; fx_unknown : bool }
 
-val scc_lookup : scc_arm list -> z -> scc_kind option
+val rev_lookup : rev_arm list -> z -> rev_arm option
 
-type sbatch = { sb_adv : bool; sb_scc : z; sb_num : z; sb_ident : n;
-                sb_credit : z; sb_debit : z; sb_entries : entry list }
+val rev_code : rev_arm list -> z -> z
 
-type sfile = { sf_origin : n; sf_dest : n; sf_batches : sbatch list;
-               sf_iat : sbatch list; sf_credit : z; sf_debit : z }
+val flag_credits : rflag -> bool
 
-val empty_file : sfile
+val flag_debits : rflag -> bool
 
-val dir_of : bool -> target
+val arm_flags : rev_arm list -> z -> bool * bool
 
-val fresh : seg_arm list -> bool -> z -> n -> entry list -> sbatch list
+val fix_fires : bool -> bool -> fcond -> bool
 
-val retrace : n -> entry list -> entry list
+val apply_fixups : rev_fixup list -> bool -> bool -> (z * z) option
 
-val part : stables -> bool -> sbatch -> sbatch list
+type rtables = { rt_arms : rev_arm list; rt_fix : rev_fixup list;
+                 rt_desc : bytes; rt_amt : seg_arm list; rt_std : z list;
+                 rt_pre : z list }
 
-val ipart : stables -> bool -> sbatch -> sbatch list
+type rbatch = { rb_scc_h : z; rb_scc_c : z; rb_desc : bytes; rb_date : 
+                bytes; rb_debit : z; rb_credit : z; rb_entries : entry list }
 
-val renumber : z -> sbatch list -> sbatch list
+type rfile = { rf_date : bytes; rf_time : bytes; rf_batches : rbatch list;
+               rf_debit : z; rf_credit : z }
 
-val tot_credit : sbatch list -> z
+val rev_entry : rev_arm list -> entry -> entry
 
-val tot_debit : sbatch list -> z
+val entry_flags : rev_arm list -> entry list -> bool * bool
 
-val is_adv_file : sbatch list -> bool
+val reversal_batch : rtables -> bytes -> rbatch -> rbatch
 
-type verr =
-| VBatch
-| VTotals
-| VAscending
+val sum_debit : rbatch list -> z
 
-type serr =
-| EInput of verr
-| EAdvOnly
-| EOutput of verr
+val sum_credit : rbatch list -> z
 
-val create : n -> n -> sbatch list -> sbatch list -> sfile option
+type rres =
+| ROk of rfile
+| RErrNoBatches
 
-val dir_wf : stables -> sbatch -> bool
+val reversal_file : rtables -> bytes -> bytes -> rfile -> rres
 
-val ctl_wf : seg_arm list -> sbatch -> bool
+val reversal_arms : rev_arm list
 
-val batch_ok : stables -> sbatch -> bool
+val reversal_fixups : rev_fixup list
 
-val ascending : z -> z list -> bool
+val reversal_description : n list
 
-val validate : stables -> sfile -> verr option
+val rev_amount_arms : seg_arm list
 
-type sres =
-| SOk of sfile * sfile
-| SErr of serr
+val rev_standard_codes : z list
 
-val finish :
-  stables -> n -> n -> sbatch list -> sbatch list -> (sfile, serr) sum
+val rev_prenote_codes : z list
 
-val segment : stables -> sfile -> sres
-
-val seg_std_arms : seg_arm list
-
-val seg_iat_arms : seg_arm list
-
-val seg_adv_arms : seg_arm list
-
-val amount_std_arms : seg_arm list
-
-val amount_iat_arms : seg_arm list
-
-val amount_adv_arms : seg_arm list
-
-val seg_standard_codes : z list
-
-val seg_scc_std : scc_arm list
-
-val seg_scc_iat : scc_arm list
-
-val sT : stables
+val rT : rtables
